@@ -57,7 +57,7 @@ def reqFees (prices : List DecCoin) (gas : Nat) : List Coin :=
 
 /-- exact, for ALL inputs: what `checkTxFeeWithValidatorMinGasPrices` admits in CheckTx mode -/
 theorem checktx_accept_iff (ctf : CheckTxFeees) (msgs : List String) (gas : Nat) (fee : List Coin) (prices : List DecCoin) :
-    checkTxFee ctf true true msgs gas fee prices = .admit ↔
+    checkTxFee ctf true true msgs gas fee prices = .accept ↔
       ¬ (int64OfU64 gas = 0 ∧ fee ≠ []) ∧
       (isByPassMinFee ctf msgs gas = true ∨ decCoinsIsZero prices = true ∨
         ((reqFees prices gas).any newCoinPanics = false ∧ isAnyGTE fee (reqFees prices gas) = true)) := by
@@ -76,7 +76,7 @@ theorem checktx_accept_iff (ctf : CheckTxFeees) (msgs : List String) (gas : Nat)
 /-- outside CheckTx (block execution) the minimum gas price is never consulted -/
 theorem delivertx_ignores_min_price (ctf : CheckTxFeees) (msgs : List String) (gas : Nat) (fee : List Coin)
     (prices : List DecCoin) (h : ¬ (int64OfU64 gas = 0 ∧ fee ≠ [])) :
-    checkTxFee ctf true false msgs gas fee prices = .admit := by
+    checkTxFee ctf true false msgs gas fee prices = .accept := by
   unfold checkTxFee
   by_cases hz : int64OfU64 gas = 0 <;> by_cases hf : fee = [] <;> simp_all
 
@@ -88,7 +88,7 @@ theorem checktx_normal_form (ctf : CheckTxFeees) (msgs : List String) (gas : Nat
     checkTxFee ctf true true msgs gas fee prices =
       if isByPassMinFee ctf msgs gas = true ∨ decCoinsIsZero prices = true ∨
           isAnyGTE fee (prices.map fun gp => Coin.mk gp.denom (Int.ofNat (ceilDiv (gp.amount.toNat * gas) decPrecision))) = true
-      then .admit else .refuse := by
+      then .accept else .refuse := by
   have hmap : (prices.map fun gp => Coin.mk gp.denom (decCeilInt (decMul gp.amount (legacyNewDec (int64OfU64 gas))))) =
       (prices.map fun gp => Coin.mk gp.denom (Int.ofNat (ceilDiv (gp.amount.toNat * gas) decPrecision))) := by
     apply List.map_congr_left
@@ -120,7 +120,7 @@ theorem checktx_no_panic_in_range (ctf : CheckTxFeees) (msgs : List String) (gas
 (non-zero) minimum gas price, or some fee coin covers ⌈price·gas⌉ of its denomination (and that requirement is non-zero) -/
 theorem checktx_accept_iff_ceil (ctf : CheckTxFeees) (msgs : List String) (gas : Nat) (fee : List Coin) (prices : List DecCoin)
     (hg0 : 0 < gas) (hg : gas < 2 ^ 63) (hp : ∀ p ∈ prices, 0 ≤ p.amount) :
-    checkTxFee ctf true true msgs gas fee prices = .admit ↔
+    checkTxFee ctf true true msgs gas fee prices = .accept ↔
       isByPassMinFee ctf msgs gas = true ∨ (∀ p ∈ prices, p.amount = 0) ∨ ∃ c ∈ fee, covers prices gas c := by
   rw [checktx_normal_form ctf msgs gas fee prices hg0 hg hp]
   have h := isAnyGTE_ceilFees prices gas fee
@@ -147,7 +147,7 @@ theorem below_min_refused (ctf : CheckTxFeees) (msgs : List String) (gas : Nat) 
     (hnb : isByPassMinFee ctf msgs gas = false) (hmin : ∃ p ∈ prices, p.amount ≠ 0)
     (hlow : ∀ c ∈ fee, ¬ covers prices gas c) :
     checkTxFee ctf true true msgs gas fee prices = .refuse := by
-  have hna : ¬ checkTxFee ctf true true msgs gas fee prices = .admit := by
+  have hna : ¬ checkTxFee ctf true true msgs gas fee prices = .accept := by
     rw [checktx_accept_iff_ceil ctf msgs gas fee prices hg0 hg hp]
     rintro (h | h | ⟨c, hc, h⟩)
     · simp [hnb] at h
@@ -162,7 +162,7 @@ panics inside `sdk.NewCoin`; the deferred `Recover` of `NewAnteHandler` turns th
 theorem huge_gas_never_admitted (ctf : CheckTxFeees) (msgs : List String) (gas : Nat) (fee : List Coin) (prices : List DecCoin)
     (hg : 2 ^ 63 ≤ gas) (hg64 : gas < 2 ^ 64) (hp : ∀ p ∈ prices, 0 ≤ p.amount)
     (hnb : isByPassMinFee ctf msgs gas = false) (hmin : decCoinsIsZero prices = false) :
-    checkTxFee ctf true true msgs gas fee prices ≠ .admit := by
+    checkTxFee ctf true true msgs gas fee prices ≠ .accept := by
   intro h
   rw [checktx_accept_iff] at h
   obtain ⟨_, h | h | ⟨hnp, hge⟩⟩ := h
